@@ -285,7 +285,12 @@ type udpOpts struct {
 }
 
 // NewUDPPair builds client and server udp connections over in-memory sessions.
-func NewUDPPair(poolSize int, rule Rule) *Pair {
+func NewUDPPair(poolSize int, rule Rule) *Pair { return NewUDPPairN(poolSize, rule, 0) }
+
+// NewUDPPairN: as NewUDPPair, with the client's NSTART (number of simultaneously outstanding confirmable exchanges) set to
+// nstart (0: practically unlimited). With a small NSTART, exchanges queue inside the transmission layer, and the ones whose
+// context ends there never reach the wire.
+func NewUDPPairN(poolSize int, rule Rule, nstart uint32) *Pair {
 	p := &Pair{Kind: "udp", stop: make(chan struct{}), slowGate: make(chan struct{})}
 	cs, ss := sim.NewMemSession(), sim.NewMemSession()
 	cs.Out = make(chan []byte, 1<<14)
@@ -324,6 +329,9 @@ func NewUDPPair(poolSize int, rule Rule) *Pair {
 		Mutate: func(cfg *udpclient.Config) {
 			cfg.GetMID = func() int32 { return int32((40000 + 0xffff/2) & 0xffff) }
 			cfg.TransmissionMaxRetransmit = 2
+			if nstart > 0 {
+				cfg.TransmissionNStart = nstart
+			}
 			cfg.ProcessReceivedMessage = func(req *pool.Message, cc *udpclient.Conn, handler config.HandlerFunc[*udpclient.Conn]) {
 				cc.ProcessReceivedMessageWithHandler(req, func(w *responsewriter.ResponseWriter[*udpclient.Conn], r *pool.Message) {
 					handler(w, r)
